@@ -52,7 +52,7 @@ def endings():
     return out
 
 
-BEHAVIOURS = ('plain', 'cd-tmp', 'cd-new', 'cd-deleted', 'env', 'readonly', 'tmp-write', 'tmpfiles')
+BEHAVIOURS = ('plain', 'cd-tmp', 'cd-new', 'cd-deleted', 'env', 'readonly', 'tmp-write', 'tmpfiles', 'act-transformed')
 OUTPUTS = ('empty', 'nonl', 'big')
 BIG = ''.join('line %06d of the output of the action to check\n' % i for i in range(1500))
 
@@ -111,6 +111,10 @@ def build(ending, behaviour):
                         "file here.txt = <<EOF\nhere doc\nEOF"]
         ph['assert'] += ["stdout -transformed-by ( run % ext-tr ) equals -stdout-from % gen2",
                          "contents piped.txt : -transformed-by char-case -to-upper matches GEN"]
+    elif behaviour == 'act-transformed':
+        # the action to check is a program symbol with a transformation of its output; the action exits with a non-zero code (3)
+        ph['setup'] += ['def program ATP = % atc\n   -transformed-by char-case -to-upper']
+        act = ['@ ATP']
     ph['before-assert'].append('run % obs before-assert')
     ph['cleanup'].insert(0, 'run % obs cleanup')
     if ending[0] == 'assert-fail':
@@ -297,6 +301,8 @@ def run(case) -> Result:
     aout = {'empty': '', 'nonl': 'out line 1\nlast line without newline', 'big': BIG}[output]
     aerr = {'empty': '', 'nonl': 'err\n', 'big': BIG[:70000]}[output]
     seam.script['atc'] = {'out': aout, 'err': aerr, 'exit': 3}
+    if behaviour == 'act-transformed':
+        aout = aout.upper()  # what result/stdout (and --act) must hold
     seam.script['nonexisting'] = {'oserror': True}
     seam.script['gen'] = {'out': 'gen output\n'}
     seam.script['gen2'] = {'out': aout}
